@@ -77,7 +77,11 @@ func GetObject(rootGoitPath string, hash sha.SHA1) (*Object, error) {
 		return nil, ErrInvalidObject
 	}
 
-	objHash := checkSum.Sum(nil)
+	// the content must belong to the requested hash
+	objHash := sha.SHA1(checkSum.Sum(nil))
+	if !objHash.Compare(hash) {
+		return nil, ErrInvalidObject
+	}
 
 	object := &Object{
 		Type: objType,
